@@ -48,9 +48,31 @@ static REAL_CLOCK_GETTIME: AtomicU64 = AtomicU64::new(0);
 static REAL_GETTIMEOFDAY: AtomicU64 = AtomicU64::new(0);
 static REAL_TIME: AtomicU64 = AtomicU64::new(0);
 
+/// the environment's answer to "what time is it" is owned by the harness when this is set: CLOCK_REALTIME then reads
+/// FAKE_SEC + FAKE_NSEC (used by the clock-route sweeps; process-wide, so only set while no other sweep runs)
+static FAKE_CLOCK_ON: AtomicU64 = AtomicU64::new(0);
+static FAKE_SEC: AtomicU64 = AtomicU64::new(0);
+static FAKE_NSEC: AtomicU64 = AtomicU64::new(0);
+
+pub fn set_fake_clock(v: Option<(i64, u32)>) {
+    match v {
+        Some((s, n)) => {
+            FAKE_SEC.store(s as u64, Ordering::SeqCst);
+            FAKE_NSEC.store(n as u64, Ordering::SeqCst);
+            FAKE_CLOCK_ON.store(1, Ordering::SeqCst);
+        }
+        None => FAKE_CLOCK_ON.store(0, Ordering::SeqCst),
+    }
+}
+
 #[no_mangle]
 pub unsafe extern "C" fn clock_gettime(clk: libc::clockid_t, ts: *mut libc::timespec) -> libc::c_int {
     CLOCK_READS.fetch_add(1, Ordering::Relaxed);
+    if clk == libc::CLOCK_REALTIME && FAKE_CLOCK_ON.load(Ordering::SeqCst) == 1 && !ts.is_null() {
+        (*ts).tv_sec = FAKE_SEC.load(Ordering::SeqCst) as i64 as libc::time_t;
+        (*ts).tv_nsec = FAKE_NSEC.load(Ordering::SeqCst) as libc::c_long;
+        return 0;
+    }
     type F = unsafe extern "C" fn(libc::clockid_t, *mut libc::timespec) -> libc::c_int;
     let p = real(b"clock_gettime\0", &REAL_CLOCK_GETTIME);
     if p == 0 {
@@ -113,7 +135,7 @@ pub fn monitor_excludes() -> Vec<(usize, usize)> {
         real(b"gettimeofday\0", &REAL_GETTIMEOFDAY);
         real(b"time\0", &REAL_TIME);
     }
-    vec![a(&GETENV_CALLS), a(&RELATIVE_OPENS), a(&ALL_OPENS), a(&REAL_OPEN64), a(&REAL_OPEN), a(&REAL_OPENAT), a(&REAL_OPENAT64), a(&STD_STREAM_WRITES), a(&REAL_WRITE), a(&REAL_WRITEV), a(&FILE_LOCK_CALLS), a(&REAL_FLOCK), a(&MID_PROBE), a(&MID_CHANGES), a(&MID_PROBES), a(&CLOCK_READS), a(&REAL_CLOCK_GETTIME), a(&REAL_GETTIMEOFDAY), a(&REAL_TIME)]
+    vec![a(&GETENV_CALLS), a(&RELATIVE_OPENS), a(&ALL_OPENS), a(&REAL_OPEN64), a(&REAL_OPEN), a(&REAL_OPENAT), a(&REAL_OPENAT64), a(&STD_STREAM_WRITES), a(&REAL_WRITE), a(&REAL_WRITEV), a(&FILE_LOCK_CALLS), a(&REAL_FLOCK), a(&MID_PROBE), a(&MID_CHANGES), a(&MID_PROBES), a(&CLOCK_READS), a(&FAKE_CLOCK_ON), a(&FAKE_SEC), a(&FAKE_NSEC), a(&REAL_CLOCK_GETTIME), a(&REAL_GETTIMEOFDAY), a(&REAL_TIME)]
 }
 
 unsafe fn note_open(path: *const libc::c_char) {
